@@ -1,4 +1,5 @@
 """C03 — cancelable mode holds a trace until its root finishes, then delivers it whole."""
+import known as K
 import seqcheck
 import seqrun
 from props import c09
@@ -9,7 +10,8 @@ def knobs(r, i):
 
 
 def run(v, tier, seed, replay):
-    cases, impl, model = seqcheck.run(v, tier, seed, replay, "C03", ["C03"], tree_oracles=["no_panic", "exactly_once", "tree"], knobs=knobs,
+    cases, impl, model = seqcheck.run(v, tier, seed, replay, "C03", ["C03"], tree_oracles=["no_panic", "exactly_once", "tree"], knobs=knobs, known=K.d14_known("C03"),
+                 extra_cases=lambda r: [K.d14_case("C03", ["no_panic", "exactly_once"])],
                  n_quick=(600, 100), n_thorough=(60000, 5000),
                  assumptions=["cross-thread completeness relies on the drain being a consistent cut; the harness serialises operations and whole cycles, finer interleavings are open finding D4 (see C03_whole)"])
     if not replay and not v.violations:
